@@ -167,7 +167,7 @@ def lean_obligations(cfg, rundir, tier):
 # Go side
 # ----------------------------------------------------------------------------------------------
 
-def build_harness(rundir):
+def build_harness(rundir, extra_flags=None):
     ov_root = os.path.join(VERIF, "harness", "overlay")
     repl = {}
     for dp, _, fs in os.walk(ov_root):
@@ -178,8 +178,11 @@ def build_harness(rundir):
     ovj = os.path.join(rundir, "overlay.json")
     with open(ovj, "w") as h: json.dump({"Replace": repl}, h)
     binp = os.path.join(rundir, "verifharness")
-    rc, out, dt = sh(["go", "build", "-tags", "verif", "-overlay", ovj, "-o", binp, "./internal/verifharness"],
-                     cwd=REPO, env=GOENV, timeout=1200)
+    env = dict(GOENV)
+    if extra_flags and "-race" in extra_flags:
+        env["CGO_ENABLED"] = "1"
+    rc, out, dt = sh(["go", "build"] + list(extra_flags or []) + ["-tags", "verif", "-overlay", ovj, "-o", binp, "./internal/verifharness"],
+                     cwd=REPO, env=env, timeout=2400)
     return rc == 0, binp, out, dt
 
 
@@ -210,6 +213,7 @@ def run_harness(binp, suite, mode_args, out_path, timeout):
     env.setdefault("GOMEMLIMIT", "3GiB")
     os.makedirs(REPLAYS, exist_ok=True)
     env.setdefault("VERIF_DUMP_DIR", REPLAYS)
+    env.setdefault("GORACE", "log_path=%s halt_on_error=0 exitcode=0" % os.path.join(os.path.dirname(out_path), "racelog"))
     cmd = [binp] + mode_args + ["-out", out_path]
     rc, out, dt = sh(cmd, cwd=os.path.dirname(binp), env=env, timeout=timeout)
     return rc, out, dt
@@ -499,7 +503,7 @@ def run_check(prop, tier, seed, cfg, rundir, t0, replay_file):
         ("" if proof_ok else f"  FAILURES: {lean['failures'][:3]}"))
 
     # 2. harness
-    ok, binp, bout, bdt = build_harness(rundir)
+    ok, binp, bout, bdt = build_harness(rundir, cfg.get("go_build_flags"))
     sres = []
     harness_ok = ok
     if not ok:
@@ -578,6 +582,22 @@ def run_check(prop, tier, seed, cfg, rundir, t0, replay_file):
                                    f"op={c['ops'][i] if i < len(c['ops']) else '?'} impl={c['obs'][i][:200] if i < len(c['obs']) else '?'} "
                                    f"model={(m['obs'][i][:200] if m and i < len(m['obs']) else '?')}")
                 r._first_diff = (c, m, i)
+
+    # static oracle of C20: (function, field) pairs that break the ownership discipline, recomputed by the
+    # extractor from the current source, minus the pairs recorded in the Lean known list
+    if cfg.get("access_known_file"):
+        try:
+            facts = json.load(open(os.path.join(rundir, "gen", "facts.json")))
+            ktext = open(os.path.join(VERIF, cfg["access_known_file"])).read()
+            kpairs = set(a + "|" + b for a, b in re.findall(r'\("([^"]+)",\s*"([^"]+)"\)', ktext))
+            for v in facts.get("violations", []):
+                if v not in kpairs:
+                    c = {"id": "access-table", "ops": ["extract /repo/torrent"], "obs": [v]}
+                    report_violation("access", c, None, f"{prop} unsynchronised-access pair={v}", "oracle")
+            fixed_pairs = sorted(kpairs - set(facts.get("violations", [])))
+            if fixed_pairs: log(f"[{prop}] known pairs no longer present: {fixed_pairs[:5]}")
+        except Exception as e:
+            corr_broken.append("access table: " + str(e))
 
     broken = []
     if not proof_ok:
